@@ -52,6 +52,86 @@ func VerifHarness_C09_TimeDuration() {
 	verifrt.Reach("end")
 }
 
+// C09-A: a fractional amount keeps its whole units only, whatever its sign (fractions are dropped, not rounded down:
+// x + (-1.5 hours) is x - 1 hour, the mirror image of x + 1.5 hours); seconds keep their milliseconds.
+func VerifHarness_C09_TimeDurationOfFractionalAmounts() {
+	units := []string{"hour", "hours", "minute", "minutes", "second", "seconds", "millisecond", "milliseconds"}
+	per := []time.Duration{time.Hour, time.Hour, time.Minute, time.Minute, time.Second, time.Second, time.Millisecond, time.Millisecond}
+	ui := verifrt.Choose("unit", len(units))
+	k := verifrt.NondetIntRange("tenths", -100000, 100000) // the amount is k/10
+	q := Quantity{Decimal(decimal.New(int64(k), -1)), units[ui]}
+	got, err := q.timeDuration()
+	want := time.Duration(k/10) * per[ui] // Go's integer division truncates toward zero
+	if per[ui] == time.Second {
+		want = time.Duration(k) * 100 * time.Millisecond
+	}
+	verifrt.Assert(err == nil && got == want, "fractions-of-the-unit-are-dropped-toward-zero")
+	neg, err2 := Quantity{Decimal(decimal.New(int64(-k), -1)), units[ui]}.timeDuration()
+	verifrt.Assert(err2 == nil && neg == -got, "negated-amount-is-the-negated-duration")
+	verifrt.Reach("end")
+}
+
+// C09: an amount too large for the conversions (to int, to time.Duration, to calendar steps) is refused with an error,
+// for every unit and every 64-bit amount, also scaled by a thousand beyond 64 bits: the result is never a date or
+// time that silently wrapped around (@2020-01-01 + 18446744073709551617 days was 2020-01-02).
+func VerifHarness_C09_HugeAmountsAreRefused() {
+	units := []string{"year", "month", "week", "day", "hour", "minute", "second", "millisecond"}
+	ui := verifrt.Choose("unit", len(units))
+	n := verifrt.NondetInt64("n")
+	// ten thousand years in each unit (clock units: what a time.Duration holds is less, and also enough)
+	limit := []int64{10000, 120000, 530000, 3660000, 87840000, 5270400000, 316224000000, 316224000000000}[ui]
+	verifrt.Assume(n > limit || n < -limit)
+	exp := int32(3 * verifrt.Choose("thousands", 2))
+	q := Quantity{Decimal(decimal.New(n, exp)), units[ui]}
+	switch verifrt.Choose("target", 3) {
+	case 0:
+		d := MustParseDate([]string{"2020", "2020-01", "2020-01-01"}[verifrt.Choose("dp", 3)])
+		_, err := d.Add(q)
+		_, err2 := d.Sub(q)
+		verifrt.Assert(err != nil && err2 != nil, "huge-amount-is-an-error-for-dates")
+	case 1:
+		dt := MustParseDateTime([]string{"2020T", "2020-01-01T10", "2020-01-01T10:00:00Z", "2020-01-01T10:00:00.000+02:00"}[verifrt.Choose("dtp", 4)])
+		_, err := dt.Add(q)
+		_, err2 := dt.Sub(q)
+		verifrt.Assert(err != nil && err2 != nil, "huge-amount-is-an-error-for-datetimes")
+	default:
+		// a Time wraps around midnight: the exact wrapped value is as good as a refusal, anything else is wrong
+		verifrt.Assume(ui >= 4 && exp == 0)
+		rank := verifrt.Choose("tp", 4)
+		t := MustParseTime([]string{"10", "10:00", "10:00:00", "10:00:00.000"}[rank])
+		per := []int64{3600000, 60000, 1000, 1}[ui-4]
+		prec := []int64{3600000, 60000, 1000, 1}[rank]
+		var amount int64 // in milliseconds, modulo one day
+		if per >= prec {
+			amount = n % (86400000 / per) * per
+		} else {
+			amount = n / (prec / per) % (86400000 / prec) * prec // whole units of the value's precision first
+		}
+		base := int64(10 * 3600000)
+		for k, sub := range []bool{false, true} {
+			var got Time
+			var err error
+			a := amount
+			if sub {
+				got, err = t.Sub(q)
+				a = -amount
+			} else {
+				got, err = t.Add(q)
+			}
+			_ = k
+			want := ((base+a)%86400000 + 86400000) % 86400000
+			ok := err != nil
+			if err == nil {
+				ref := Time{time.Date(0, 1, 1, 0, 0, 0, 0, time.UTC).Add(time.Duration(want) * time.Millisecond), t.l}
+				eq, has := got.TryEqual(ref)
+				ok = has && eq
+			}
+			verifrt.Assert(ok, "huge-amount-is-refused-or-wraps-around-midnight-exactly")
+		}
+	}
+	verifrt.Reach("end")
+}
+
 // C09-A: conversion of finer units to whole years / months (1 year = 365 days = 12 months, 1 month = 30 days, a week is 7 days).
 func VerifHarness_C09_ToYearsMonths() {
 	units := []string{"year", "years", "month", "months", "week", "weeks", "day", "days", "hour", "hours", "minute", "minutes", "second", "seconds", "millisecond", "milliseconds", "mg"}
@@ -64,6 +144,12 @@ func VerifHarness_C09_ToYearsMonths() {
 	ok := true
 	switch ui / 2 {
 	case 0:
+		if n > 10000 || n < -10000 {
+			// more than ten thousand years: no date moves that far, the amount is refused (the operator yields empty)
+			verifrt.Assert(errors.Is(errY, ErrIntOverflow) && errors.Is(errM, ErrIntOverflow), "amount-beyond-ten-thousand-years-is-refused")
+			verifrt.Reach("end")
+			return
+		}
 		verifrt.Assert(errY == nil && errM == nil && y == n && m == n*12, "years-convert")
 		verifrt.Reach("end")
 		return
